@@ -22,7 +22,7 @@ LabV(ve, n) ==
 LabC(c, n) == IF IsNone(c) THEN [v |-> c, n |-> n] ELSE [v |-> [c EXCEPT !.id = n], n |-> n + 1]
 LabSimple(s, n) ==   \* simple statements, initialisers and post statements
   IF IsNone(s) THEN [v |-> s, n |-> n]
-  ELSE CASE s.k \in {"eff", "passign", "effkv", "effkk", "retx"} -> [v |-> [s EXCEPT !.id = n], n |-> n + 1]
+  ELSE CASE s.k \in {"eff", "passign", "effkv", "effkk", "effw", "retx"} -> [v |-> [s EXCEPT !.id = n], n |-> n + 1]
          [] s.k = "yield" -> LET r == LabV(s.v, n) IN [v |-> [s EXCEPT !.v = r.v], n |-> r.n]
          [] s.k = "effx" -> LET r == LabV(s.v, n + 1) IN [v |-> [s EXCEPT !.id = n, !.v = r.v], n |-> r.n]
          [] s.k = "yfrom" -> LET r == LabV(s.arg, n) IN [v |-> [s EXCEPT !.arg = r.v], n |-> r.n]
